@@ -42,7 +42,7 @@ var CfgC02 = reg(&MachineCfg{
 		}
 	},
 	Gens: []interface{}{"aol", 64, "commit", 12, "authz", 12, "crash", 2, "restart", 2, "bank", 2, "pnft", 2, "sim_aol", 6},
-	Bias: map[string]int{"right-signers": 55, "exec": 22, "fee-payer": 40, "multi": 18},
+	Bias: map[string]int{"right-signers": 55, "exec": 22, "fee-payer": 40, "multi": 18, "tamper": 10},
 	Rule: "same machine with independently chosen signer sets (right, other account, swapped, dropped, garbage signature, wrong sequence, extra), sign modes direct/amino-json/direct-aux, named fee payers and authz grant/revoke/exec; oracle = transition validity on the aol store diff of every DeliverTx; non-trivial = at least one refused AOL attempt and at least one accepted writer-list change or append",
 	NonTrivial: func(w *world.World) bool {
 		return lab(w, "aol refused attempt") > 0 && (lab(w, "aol record acknowledged") > 0 || lab(w, "aol writer added") > 0)
@@ -139,7 +139,7 @@ var CfgC06 = reg(&MachineCfg{
 		}
 	},
 	Gens: []interface{}{"pnft", 66, "commit", 12, "authz", 10, "crash", 2, "restart", 2, "bank", 2, "export", 2, "sim_pnft", 5},
-	Bias: map[string]int{"right-signers": 68, "exec": 15, "pnft-handover": 5, "pnft-transfer": 6, "former-owner": 35},
+	Bias: map[string]int{"right-signers": 68, "exec": 15, "pnft-handover": 5, "pnft-transfer": 6, "former-owner": 35, "tamper": 6},
 	Rule: "PNFT state machine: the seven message types with actors chosen independently of signers, hand-over chains, burn and re-mint, former owners and creators, ghost receivers, upper-case spellings, authz grant/exec; oracle = transition validity (actor is the current owner and stands behind the tx) + full decoded-store agreement after every DeliverTx; non-trivial = an ownership hand-over followed by a refused attempt of the former owner",
 	NonTrivial: func(w *world.World) bool {
 		return lab(w, "pnft denom handed over")+lab(w, "pnft transferred") > 0 && lab(w, "pnft former owner refused") > 0
@@ -217,7 +217,7 @@ var CfgC08 = reg(&MachineCfg{
 var CfgC15 = reg(&MachineCfg{
 	Prop: "C15", Also: agreement,
 	Gens: []interface{}{"aol", 34, "did", 22, "pnft", 26, "mixed", 10, "commit", 8},
-	Bias: map[string]int{"right-signers": 85, "exec": 0, "multi": 35, "fee-payer": 50, "right-proof": 80},
+	Bias: map[string]int{"right-signers": 85, "exec": 0, "multi": 35, "fee-payer": 50, "right-proof": 80, "tamper": 6},
 	Rule: "transactions of 1-4 custom-module messages (any mix, succeeding or failing at any position), fees in {0, small, two denoms, more than the balance}, explicit fee payers, add-record with/without a named fee payer; oracle = per-DeliverTx balance/supply diff and all-or-nothing on the three custom stores; non-trivial = a multi-message tx that failed after the ante, or an add-record with a named fee payer",
 	NonTrivial: func(w *world.World) bool {
 		return lab(w, "c15 multi-message tx failed after ante")+lab(w, "c15 add-record with named fee payer") > 0
